@@ -145,6 +145,13 @@ func worker(histories []string, shard, shards, bound int, deadline time.Time, ou
 		if job++; job%shards == shard {
 			check(nil, clockA.Add(365*24*time.Hour), "B", "(clock one year later)")
 		}
+		// the node also serves gas estimations: every transaction of the next block is simulated (executed on a context
+		// that is thrown away) before the block is processed - what a node does off-chain must not reach the chain
+		if job++; job%shards == shard {
+			simulateBeforeBlock = true
+			check(nil, clockA, "A", "(transactions simulated before their block)")
+			simulateBeforeBlock = false
+		}
 		// one deviation: every other order at every visit
 		for i, v := range base.Visits {
 			if verifseam.Perms(v.N) < factorial(v.N) {
@@ -185,6 +192,9 @@ func worker(histories []string, shard, shards, bound int, deadline time.Time, ou
 		panic(err)
 	}
 }
+
+// simulateBeforeBlock: hist.block runs baseapp's Simulate on every queued transaction before the block (see worker).
+var simulateBeforeBlock bool
 
 func factorial(n int) int {
 	f := 1
@@ -270,7 +280,7 @@ func main() {
 	sitesFile := fs.String("sites", "", "sites.json written by seamgen")
 	_ = fs.Parse(os.Args[1:])
 	start := time.Now()
-	histories := []string{"bridge-gov-staking", "gov-failures"}
+	histories := []string{"bridge-gov-staking", "gov-failures", "oracle-churn"}
 	bound, deadline := 1, 240
 	if *tier == "thorough" {
 		histories = []string{"bridge-gov-staking", "gov-failures", "oracle-churn"}
